@@ -38,7 +38,20 @@ func proveLemma(P *Program, name, dir string, timeout int, cross bool) (solverAn
 		facts = append(facts, t)
 	}
 	e := &env{g: g, vars: map[string]binding{}, st: st, old: st, pkgPath: target.PkgPath, imports: target.Imports}
-	goal, err := e.trBool(target.E)
+	goalExpr := target.E
+	if q, ok := goalExpr.(*EQuant); ok && q.Forall {
+		// named witnesses instead of a quantifier, so that a counterexample shows up in the model
+		for _, qv := range q.Vars {
+			xt, err := g.resolveType(qv.Type, target.PkgPath, target.Imports)
+			if err != nil {
+				return solverAnswer{}, "", err
+			}
+			name := g.c.declareConst("p.w_"+qv.Name+"!0", xt.S)
+			e = e.with(qv.Name, binding{name, xt})
+		}
+		goalExpr = q.Body
+	}
+	goal, err := e.trBool(goalExpr)
 	if err != nil {
 		return solverAnswer{}, "", fmt.Errorf("lemma %s: %v", name, err)
 	}
@@ -62,7 +75,7 @@ func proveLemma(P *Program, name, dir string, timeout int, cross bool) (solverAn
 	for _, f := range facts {
 		sb.WriteString("(assert " + f + ")\n")
 	}
-	sb.WriteString("(assert (not " + goal + "))\n(check-sat)\n")
+	sb.WriteString("(assert (not " + goal + "))\n(check-sat)\n(get-model)\n")
 	q := sb.String()
 	a, _ := race(dir, "lemma__"+name, q, timeout, target.Strings, cross)
 	return a, q, nil
